@@ -525,8 +525,11 @@ def fam_fault(tier: str, rng: random.Random) -> Iterator[dict]:
     """C11: a fault of every kind injected at every crossing of a checked call, followed by probe calls."""
     kmax = 16
     for name, base in _fault_bases(tier):
+        kinds = list(FAULT_KINDS)
+        if not any(f["async"] for f in base["fn"]):
+            kinds += ["StopIter", "Assertion", "Key", "Type", "Attr"]
         for k in range(1, kmax + 1):
-            for kind in FAULT_KINDS:
+            for kind in kinds:
                 p = json_copy(base)
                 p["fault"] = {"at": k, "kind": kind, "n": 0, "more": []}
                 p["tag"] = "fault-{}-k{}-{}".format(name, k, kind)
